@@ -91,7 +91,7 @@ Section DeepTok.
     - rewrite (tok_enc H cs h nolook), IH.
       destruct (dtokv cs h cty f (m :: st) (VRef t)) as [[a e]|er]; cbn [bind fst snd]; [|reflexivity].
       destruct (dargs (dtokv cs h cty f (m :: st)) (cty (sg_tid sg)) (sg_args sg)) as [[aa ee]|er]; cbn [bind fst snd]; [|reflexivity].
-      unfold node_id. cbn [flatten]. unfold enc_sig. cbn [ss_task ss_tid ss_args app]. reflexivity.
+      unfold node_id, tmark. destruct (index_of t (m :: st)); cbn [flatten]; unfold enc_sig; cbn [ss_task ss_tid ss_args app option_map]; reflexivity.
     - cbn [bind fst snd].
       destruct (dargs (dtokv cs h cty f (m :: st)) (cty (sg_tid sg)) (sg_args sg)) as [[aa ee]|er]; cbn [bind fst snd]; [|reflexivity].
       unfold node_id. cbn [flatten]. unfold enc_sig. cbn [ss_task ss_tid ss_args app]. reflexivity.
